@@ -128,6 +128,22 @@ Theorem C56_run_events_prefix_partial : forall c i p its sched s evs n,
 Proof. exact run_events_prefix. Qed.
 Print Assumptions C56_run_events_prefix_partial.
 
+(* every run completes: after ANY schedule the round-robin continuation ends with both processes ended — the consumer asleep
+   with nothing pending, the producer out of items (the runner's out-of-fuel answer is impossible). Any indices. *)
+Theorem C56_every_run_completes : forall c i p its sched, valid_cfg c i ->
+  exists s evs n, run_case c i p its sched = Some (s, evs, n) /\ all_done s = true.
+Proof. exact run_case_completes. Qed.
+Print Assumptions C56_every_run_completes.
+
+(* what the runner prints for every case (and the harness must print too): completed, popped values = pushed values,
+   final drain empty, nothing pending, flags "blocked, no signal" *)
+Theorem C56_every_run_completes_and_delivers_partial : forall c i p its sched,
+  valid_cfg c i -> no_wrap_or_dividing c i its ->
+  exists s evs n, run_case c i p its sched = Some (s, evs, n) /\ all_done s = true /\
+    pops_of evs = map Some (pushes_of evs) /\ drain_all s = [] /\ notifs s = 0 /\ blocked s = true /\ signal s = false.
+Proof. exact run_case_completes_and_delivers. Qed.
+Print Assumptions C56_every_run_completes_and_delivers_partial.
+
 (* ================= the invariants themselves ================= *)
 Theorem C56_invariant_all_interleavings : forall c i p its sched,
   valid_cfg c i -> no_wrap_or_dividing c i its -> Inv (reach c i p its sched).
